@@ -84,7 +84,7 @@ theorem devTail_inv {ex : Var → Prop} {s : St} {d : Nat} (hi : InvX ex s) (ha 
   have hi7 := hi6.kill_var hdo.ptr false (by intro h; cases h)
   refine ⟨hi7, ?_⟩
   have h5dead : (killForm s d).alive d = false := by simp [killForm]
-  refine ⟨?_, ?_, ?_, ?_, ?_, ?_, ?_, ?_⟩
+  refine ⟨?_, ?_, ?_, ?_, ?_, ?_, ?_, ?_, ?_⟩
   · show s6.alive d = false
     cases h : s6.alive d
     · rfl
@@ -141,5 +141,29 @@ theorem devTail_inv {ex : Var → Prop} {s : St} {d : Nat} (hi : InvX ex s) (ha 
     have e : (killForm s d).kind t = s.kind t := rfl
     rw [e, htk] at this
     cases this
+  · intro w hw
+    have hpw := hi.ring_ptr w d hw
+    have hwc : w ≠ Var.cur d := by
+      intro h
+      by_cases hex : ex w
+      · exact hi.ex_out w hex d hw
+      · have := (hi.ptr_ok w d hpw hex).2.1
+        rw [hk, h] at this
+        cases this
+    have hw5 : ∀ x, w ∉ (killForm s d).ring x := by
+      intro x hx
+      by_cases hxd : x = d
+      · subst hxd; simp [killForm] at hx
+      · have hx' : w ∈ s.ring x := by simpa [killForm, upd_apply, hxd] using hx
+        have := hi.ring_ptr w x hx'
+        rw [hpw] at this
+        cases this
+        exact hxd rfl
+    have e5 : (killForm s d).ptr w = none := by simp [killForm, hw]
+    have e7 : (s6.setVLive (Var.cur d) false).ptr w = s6.ptr w := rfl
+    rw [e7]
+    rcases hdo.ptr_out w hwc hw5 with h | h
+    · rw [h, e5]
+    · exact h
 
 end Occa.Gc
